@@ -317,10 +317,22 @@ impl Facts {
         frames.push(Vec::new());
     }
 
-    /// Commit (discard) the top-most undo frame
+    /// Commit the top-most undo frame.
+    ///
+    /// The changes stay, but they now belong to the enclosing frame (if any):
+    /// its rollback must still restore the keys first written inside the
+    /// committed frame, so their oldest recorded values are handed down.
     pub fn commit_undo_frame(&self) {
         let mut frames = self.undo_frames.write().unwrap();
-        frames.pop();
+        if let Some(committed) = frames.pop() {
+            if let Some(parent) = frames.last_mut() {
+                for entry in committed {
+                    if !parent.iter().any(|e: &UndoEntry| e.key == entry.key) {
+                        parent.push(entry);
+                    }
+                }
+            }
+        }
     }
 
     /// Rollback the top-most undo frame, restoring prior values
